@@ -172,7 +172,7 @@ def ge(scf, **kwargs):
     )
 
     Sf = xp.sum(atoms.Sf, axis=0)
-    return atoms.J(Vps * Sf)
+    return xp.real(atoms.J(Vps * Sf))
 
 
 def init_pot(scf, pot_params=None):
